@@ -735,6 +735,77 @@ theorem cleanB_clean (p : Nm) : (endsCleanB p = true → EndsClean p) ∧ (noSep
 
 end Qualify
 
+/-! ## mini-round: the proviso of `qualify_preserves_wiring` discharged; names of a whole build -/
+
+section Qualify2
+open Opset.Qualify
+
+/-- `NoClash` follows from a premise about the kept names alone: a name without `__` can never equal a
+    qualified name `f"{p}__{x}"` — whatever the node name `p` and the introduced names are. -/
+theorem noClash_of_noSep (p : Nm) (ins outs : List Nm) (nodes : List QNode)
+    (h : ∀ a ∈ occurring nodes, a ∉ introduced (ins ++ outs) nodes → NoSep a) :
+    NoClash p ins outs nodes := by
+  intro a ha hni x _ e
+  exact h a ha hni p x e
+
+/-- the executable premise: every occurring name is introduced or contains no `__` -/
+def keptNoSepB (ins outs : List Nm) (nodes : List QNode) : Bool :=
+  (occurring nodes).all (fun a => (introduced (ins ++ outs) nodes).contains a || noSepB a)
+
+/-- `qualify_preserves_wiring` with its proviso discharged from the executable premise: when the names that stay
+    (operands / results of the original node, the empty name) contain no `__`, the renaming keeps the wiring —
+    for every node name and every converter output. -/
+theorem qualify_preserves_wiring_of_keptNoSep (p : Nm) (ins outs : List Nm) (nodes : List QNode)
+    (h : keptNoSepB ins outs nodes = true) (a b : Nm) (ha : a ∈ occurring nodes) (hb : b ∈ occurring nodes) :
+    ren p (introduced (ins ++ outs) nodes) a = ren p (introduced (ins ++ outs) nodes) b ↔ a = b := by
+  apply qualify_preserves_wiring p ins outs nodes _ a b ha hb
+  apply noClash_of_noSep
+  intro c hc hni
+  have := List.all_eq_true.mp h c hc
+  simp only [Bool.or_eq_true, List.contains_iff_mem] at this
+  rcases this with h1 | h2
+  · exact absurd h1 hni
+  · exact (cleanB_clean c).2 h2
+
+example : keptNoSepB ["x".toList] ["ReduceMean_0_reduced".toList]
+    [⟨[], ["_v_4".toList]⟩, ⟨["x".toList, "_v_4".toList], ["ReduceMean_0_reduced".toList]⟩] = true := by decide
+/-- the clash witness of `qualify_wiring_counterexample` is rejected by the premise -/
+example : keptNoSepB ["N__t".toList] ["y".toList] [⟨["N__t".toList], ["t".toList]⟩, ⟨["t".toList], ["y".toList]⟩] = false := by
+  decide
+
+/-- Whole build: the value names the scope assigned (pairwise distinct, none containing `__` — the names of a graph
+    without bodies) together with the qualified names of ANY number of converted nodes are pairwise distinct
+    strings: no converter-introduced value can collide with another one or with a value of the scope. -/
+theorem model_names_nodup (scope : List Nm) (cs : List (Nm × List Nm))
+    (hsc : scope.Nodup) (hsn : ∀ a ∈ scope, NoSep a)
+    (hp : (cs.map (·.1)).Nodup) (hc : ∀ c ∈ cs, EndsClean c.1) (hs : ∀ c ∈ cs, ∀ a ∈ c.2, NoSep a)
+    (hn : ∀ c ∈ cs, c.2.Nodup) :
+    (scope ++ cs.flatMap (fun c => c.2.map (qual c.1))).Nodup := by
+  rw [List.nodup_append]
+  refine ⟨hsc, adapted_names_fresh_strings cs hp hc hs hn, ?_⟩
+  intro a ha b hb hab
+  subst hab
+  obtain ⟨c, _, hb'⟩ := List.mem_flatMap.mp hb
+  obtain ⟨x, _, hx⟩ := List.mem_map.mp hb'
+  exact hsn a ha c.1 x hx.symm
+
+example : (["x".toList, "ReduceMean_0_reduced".toList] ++
+    ([("ReduceMean_0".toList, ["_v_4".toList]), ("If_0_then_branch__ReduceMean_0".toList, ["_v_4".toList])] :
+      List (Nm × List Nm)).flatMap (fun c => c.2.map (qual c.1))).Nodup :=
+  model_names_nodup _ _ (by decide)
+    (by intro a ha; simp only [List.mem_cons, List.mem_nil_iff, or_false] at ha
+        rcases ha with rfl | rfl <;> exact (cleanB_clean _).2 (by decide))
+    (by decide)
+    (by intro c hc; simp only [List.mem_cons, List.mem_nil_iff, or_false] at hc
+        rcases hc with rfl | rfl <;> exact (cleanB_clean _).1 (by decide))
+    (by intro c hc a ha; simp only [List.mem_cons, List.mem_nil_iff, or_false] at hc
+        rcases hc with rfl | rfl <;>
+          (simp only [List.mem_cons, List.mem_nil_iff, or_false] at ha; subst ha
+           exact (cleanB_clean _).2 (by decide)))
+    (by intro c hc; simp only [List.mem_cons, List.mem_nil_iff, or_false] at hc
+        rcases hc with rfl | rfl <;> decide)
+end Qualify2
+
 /-! ## `_initializers_to_constants` (round 10) -/
 
 section Inits
